@@ -514,7 +514,7 @@ func (g *c07g) emptyBase() {
 	nu := 2 + g.r.Intn(2)
 	for i := 0; i < nu; i++ {
 		um := home
-		if len(others) > 0 && (i == nu-1 || g.chance(0.4)) && !(i == 1 && nu == 3) {
+		if len(others) > 0 && (i == nu-1 || (i > 0 && g.chance(0.4))) {
 			um = others[g.r.Intn(len(others))]
 		}
 		ref := gr.Arg
